@@ -29,7 +29,7 @@ func v2(p string) string {
 
 func checkC04(e *RunEnv) *CheckResult {
 	paths := []string{"a", "d/x", "d/y", "d/s/z", "ad/x", "d-x", "d0", "a b", "d/.goit", "big"}
-	spellings := []string{".", "nonexist/../a", "@ROOT@/a", "@ROOT@/d", "../root/d/x", "@ROOT@", "d/", "./d", "./a", "d/s/.", "d//x", "../root"}
+	spellings := []string{"", ".", "nonexist/../a", "@ROOT@/a", "@ROOT@/d", "../root/d/x", "@ROOT@", "d/", "./d", "./a", "d/s/.", "d//x", "../root"}
 	singles := []string{"big", "a", "d/x", "d/y", "d/s/z", "ad/x", "d-x", "d0", "a b", "d", "d/s", "ad", "nope", "d/nope", "d/", "./d", "./a", "d/s/."}
 	pairAlpha := []string{"a", "d", "d/x", "nope"}
 	if e.Thorough() {
